@@ -40,7 +40,8 @@ CFG = dict(
          "one interactive session (granularity=addresses; traces; proto; traces) and the web interface (/download through the real "
          "handlers), compared with the command-line model fetch_cli and judged by the same clauses; ~100 deterministic shapes (named "
          "executable x mode x recorded file x build id on a partly symbolized profile; symbol sources answering a function identical to "
-         "another one, local and remote; file-less and mapping-less profiles) + 70 random. distinct = sha256 of the input term; non-trivial = a plug-in was called or the profile changed "
+         "another one, local and remote; file-less and mapping-less profiles) + 70 random; deterministic drop_frames shapes (11 answered names x 4 "
+         "drop/keep alternations x modes, frame outermost / in the middle / inside an inlined location) for ops fetch and e2e. distinct = sha256 of the input term; non-trivial = a plug-in was called or the profile changed "
          "(sym), offset != 0 (adjust), the regexp matched (re), the name changed (rm), non-empty name (looks)",
     spec_what="symbolization changed something other than lines / names / has-flags (or touched a mapping that already had symbols without "
               "force, emptied a name, left an invalid profile, or adjust missed a wrap-around): C12 statement",
@@ -54,6 +55,8 @@ CFG = dict(
                  "max+1 wraps to the reserved id 0); the wrap-around itself is modelled and compared",
                  "demangle.Filter never answers a non-empty name by the empty string (checked on the shipped tables)",
                  "modes are ASCII (strings.ToLower)",
+                 "drop_frames / keep_frames of the pipeline streams are bare alternations of literal names (whole-name matching decided in the "
+                 "model, C11's Prune semantics); stacks may shrink only when a function's whole simplified name is an alternative (droppable)",
                  "op e2e: sample labels are stripped (their round trip through -proto is C01's), -traces rows are compared on the (inline) marks "
                  "and on containing the function name (value column and address/file:line text are C04/C15/C18's); an error result is accepted only "
                  "when the proved model also fails (cli_fails_only_when)",
